@@ -108,6 +108,100 @@ def malformed_line(rng, kind):
     return ",".join(good)
 
 
+# --- ids of any magnitude --------------------------------------------------------------------------------------------------------------
+# "arbitrary distinct ids": an id is an integer token of the line grammar and comes back as that integer. Besides the small ids of ordinary
+# files the generator places ids next to the limits of every numeric type a table could pass through on its way (int16, float32's 2**24,
+# int32, uint32, float64's 2**53, the upper end of int64) and spreads them sparsely over the whole int64 range. (The table's id column is
+# int64, so ids stay below 2**63.)
+ID_MAGS = ["2^15", "2^24", "2^31", "2^32", "2^53", "2^62", "int64-top", "sparse"]
+
+
+def big_id_pool(rng, n, mag, contiguous):
+    """n distinct ids (ascending) of the given magnitude"""
+    span = n if contiguous else 3 * n + 3
+    if mag == "sparse":
+        if contiguous:
+            lo = rng.randrange(2 ** 40, 2 ** 63 - span)
+        else:
+            pool = set()
+            while len(pool) < n:      # every order of magnitude, anywhere in the range
+                pool.add(rng.randrange(2 ** rng.randint(8, 63)))
+            return sorted(pool)
+    elif mag == "int64-top":
+        lo = 2 ** 63 - span - rng.randint(0, 3)
+    else:
+        t = 2 ** int(mag[2:])
+        # straddling the limit, or just above it (odd and even ids alike)
+        lo = t - rng.randint(0, span) if rng.random() < 0.4 else t + rng.randint(0, 7)
+    return list(range(lo, lo + span)) if contiguous else sorted(rng.sample(range(lo, lo + span), n))
+
+
+def big_table(rng, pids, mag, shuffled, contiguous=False):
+    n = len(pids)
+    pool = big_id_pool(rng, n, mag, contiguous)
+    order = list(range(n))
+    if shuffled:
+        rng.shuffle(order)
+    return [pool[o] for o in order], [-1 if pids[o] == -1 else pool[pids[o]] for o in order]
+
+
+# --- bytes that are not text ------------------------------------------------------------------------------------------------------------
+# every way a byte string fails to be utf-8, at every place of a file
+BAD_BYTES = ["lone-continuation", "lead-then-ascii", "never-valid", "truncated-sequence", "overlong", "surrogate", "bom-like"]
+BAD_PLACES = ["comment", "separator", "beside-separator", "in-number", "row-end", "start", "end", "own-line"]
+# everything that reads an SWC file: the table reader, the tree front end, and the collections that read their members on access
+ENTRIES = ["read_swc", "tree", "population", "population-iter", "lazy-list", "populations", "populations-chain"]
+
+
+def bad_bytes(rng, kind):
+    if kind == "lone-continuation":
+        return bytes([rng.randint(0x80, 0xBF)])
+    if kind == "lead-then-ascii":       # a lead byte of a 2/3/4-byte sequence (what a legacy code page letter looks like) followed by ASCII
+        return bytes([rng.randint(0xC2, 0xF4)])
+    if kind == "never-valid":
+        return bytes([rng.choice([0xC0, 0xC1] + list(range(0xF5, 0x100)))])
+    if kind == "truncated-sequence":
+        full = rng.choice(["€", "ü", "𝛼", "é", "µ"]).encode("utf-8")
+        return full[: rng.randint(1, len(full) - 1)]
+    if kind == "overlong":
+        return rng.choice([b"\xc0\xaf", b"\xe0\x80\xaf", b"\xc1\xbf"])
+    if kind == "surrogate":
+        return rng.choice([b"\xed\xa0\x80", b"\xed\xbf\xbf"])
+    return rng.choice([b"\xff\xfe", b"\xfe\xff", b"\xff\xfe\xfa"])
+
+
+def place_bad_bytes(rng, data, place):
+    """(offset, number of bytes replaced, bytes appended to the inserted ones) for an ASCII file `data` with a comment line and a data row"""
+    ls = data.split(b"\n")
+    starts, o = [], 0
+    for ln in ls:
+        starts.append(o); o += len(ln) + 1
+    rows_ = [k for k, ln in enumerate(ls) if ln.strip() and not ln.lstrip().startswith(b"#")]
+    cms = [k for k, ln in enumerate(ls) if ln.lstrip().startswith(b"#")]
+    if place == "start":
+        return 0, 0, b""
+    if place == "end":
+        return len(data), 0, b""
+    if place == "own-line":
+        return starts[rng.randrange(len(ls))], 0, b"\n"
+    if place == "comment":
+        k = rng.choice(cms)
+        return starts[k] + rng.randint(ls[k].index(b"#") + 1, len(ls[k]) - (1 if ls[k].endswith(b"\r") else 0)), 0, b""
+    k = rng.choice(rows_)
+    ln = ls[k]
+    body = [j for j in range(len(ln)) if ln[j:j + 1] not in (b" ", b"\t", b"\r")]
+    inner_ws = [j for j in range(body[0], body[-1]) if ln[j:j + 1] in (b" ", b"\t")]
+    if place == "row-end":             # after the last field, where blanks may follow
+        return starts[k] + body[-1] + 1, 0, b""
+    if place == "separator":           # the bad bytes stand where a blank stood
+        single = [j for j in inner_ws if j - 1 not in inner_ws and j + 1 not in inner_ws] or inner_ws
+        return starts[k] + rng.choice(single), 1, b""
+    if place == "beside-separator":
+        return starts[k] + rng.choice(inner_ws) + rng.choice([0, 1]), 0, b""
+    j = rng.choice([j for j in body if j + 1 in body] or body)   # inside a number
+    return starts[k] + j + 1, 0, b""
+
+
 class Read(Suite):
     name = "c02.read"
 
@@ -171,6 +265,73 @@ class Read(Suite):
                 note = " Zellkörper é ü"
                 out.append({"class": "plain/encoding-" + enc, "mode": "plain", "rows": rows, "comments": [note] + comments, "n_extra": 0, "reset_index": False,
                             "source": src, "encoding": enc, "text": "#" + note + "\n" + text})
+        big = tier == "thorough" or widen
+        # ids of any magnitude (every limit, each way of reading): as written (reset_index=False, any distinct ids in any row order),
+        # shifted to the root (reset_index=True), sorted (arbitrary ids, arbitrary row order), and through a population directory
+        for mag in ID_MAGS:
+            for how in ["raw", "reset", "sorted-read"] + (["population"] if big or mag in ("2^24", "2^53", "sparse") else []):
+                for _ in range(6 if big else 1):
+                    n = rng.choice([2, 3, 5, 9] + ([40] if big else []))
+                    pids = gen.parents_sorted(rng, n, gen.pick_shape(rng, k)); k += 1
+                    if how in ("raw", "sorted-read"):
+                        ids, pp = big_table(rng, pids, mag, shuffled=(how == "sorted-read" or rng.random() < 0.5))
+                    else:
+                        ids, pp = big_table(rng, pids, mag, shuffled=False, contiguous=True)
+                    nx = rng.choice([0, 0, 1]) if how != "population" else 0
+                    text, rows, comments = make_text(rng, ids, pp, n_extra=nx)
+                    mode = {"raw": "plain", "reset": "plain"}.get(how, how)
+                    out.append({"class": f"big-ids/{mag}/{how}", "mode": mode, "rows": rows, "comments": comments, "n_extra": nx, "bad": None,
+                                "reset_index": how != "raw", "source": rng.choice(["text", "bytes", "path"]), "text": text})
+        # every entry point that reads a file × (well-formed | malformed line | bytes that are not text): a collection reads its members on
+        # access with the options it was given, and what holds for one read holds for each of them
+        kinds = BAD_BYTES[:]
+        rng.shuffle(kinds)
+        nb = 0
+        for rep in range(4 if big else 1):
+            # per entry point: a well-formed file, malformed lines, undecodable bytes at EVERY place under the default encoding (a place
+            # decides what a guessing decoder would make of the bytes: part of a comment, a blank, a broken number), the kinds of bad bytes
+            # walked round-robin over (entry, place), and two more with the encoding named by the caller
+            combos = [(e, w) for e in ENTRIES for w in ["ok", "row", "row"] + [("bytes", pl) for pl in BAD_PLACES]
+                      + [("bytes-enc", rng.choice(BAD_PLACES)) for _ in range(2)]]
+            for entry, what in combos:
+                place = None
+                if isinstance(what, tuple):
+                    what, place = what
+                pids = gen.parents_sorted(rng, rng.choice([1, 2, 4, 7]), gen.pick_shape(rng, k)); k += 1
+                base = rng.choice([0, 1, 1, 5])
+                text, rows, comments = make_text(rng, [i + base for i in range(len(pids))], [-1 if p < 0 else p + base for p in pids])
+                case = {"mode": "entry", "entry": entry, "rows": rows, "comments": comments, "n_extra": 0, "reset_index": True, "bad": None,
+                        "source": rng.choice(["bytes", "path"]) if entry in ("read_swc", "tree") else "path"}
+                if what == "row":
+                    ls = text.split("\n")
+                    pos = rng.choice([0, len(ls) // 2, max(0, len(ls) - 1)])
+                    case["bad"] = rng.choice(MALFORM)
+                    case["bad_pos"] = "first" if pos == 0 else ("middle" if pos == len(ls) // 2 else "last")
+                    ls.insert(pos, malformed_line(rng, case["bad"]))
+                    text = "\n".join(ls)
+                    case["class"] = f"entry/{entry}/row-{case['bad']}"
+                elif what in ("bytes", "bytes-enc"):
+                    kind = kinds[nb % len(kinds)]; nb += 1
+                    note = rng.choice([" traced by hand", " neuron 7", " x y z in um"])
+                    text = "#" + note + "\n" + text
+                    case["comments"] = [note] + comments
+                    data = text.encode("ascii")
+                    off, dele, suffix = place_bad_bytes(rng, data, place)
+                    ins = bad_bytes(rng, kind) + suffix
+                    try:
+                        (data[:off] + ins + data[off + dele:]).decode("utf-8")
+                        continue   # (cannot happen for an ASCII text; the case is about bytes that are NOT utf-8)
+                    except UnicodeDecodeError:
+                        pass
+                    case.update({"bad": "bytes", "bad_kind": kind, "bad_place": place, "bad_off": off, "bad_del": dele, "bad_hex": ins.hex()})
+                    if what == "bytes-enc":     # the encoding named by the caller (the other half: the default)
+                        case["encoding"] = rng.choice(["utf-8", "utf-8", "ascii"])
+                    case["class"] = f"entry/{entry}/bytes@{place}"
+                else:
+                    case["class"] = f"entry/{entry}/ok"
+                case["text"] = text
+                out.append(case)
+            nb += 1      # the next round pairs every (entry, place) with the next kind
         return out
 
     def run(self, case):
@@ -206,6 +367,8 @@ class Read(Suite):
                     out_.append({"keys": sorted(str(k) for k in t.keys()), "extra": {k: [float(v) for v in t.get_ndata(k)] if k in t.keys() else None for k in names},
                                  "x": [float(v) for v in t.x()], "pid": t.pid().tolist()})
             return {"eswc": out_, "via": "eswc", "df": {"id": list(range(len(case["rows"])))}, "comments": [], "warnings": []}
+        if case["mode"] == "entry":
+            return self.run_entry(case, data, kw)
         try:
             if case["mode"] == "population":
                 tmp = tempfile.mkdtemp(prefix="c02_")
@@ -248,9 +411,76 @@ class Read(Suite):
             if tmp:
                 shutil.rmtree(tmp, ignore_errors=True)
 
+    def run_entry(self, case, data, kw):
+        """one file read through one of the entry points; an exception of the READ is part of the result ("raised"), anything else that
+        goes wrong here is the harness's (reported as such, never taken for the loud failure the property asks for)"""
+        from swcgeom.core import Population, Populations, Tree
+        from swcgeom.core.population import LazyLoadingTrees
+        from swcgeom.core.swc_utils import read_swc
+
+        if case.get("bad") == "bytes":
+            off = case["bad_off"]
+            data = data[:off] + bytes.fromhex(case["bad_hex"]) + data[off + case["bad_del"]:]
+        entry = case["entry"]
+        other = b"1 1 0 0 0 1 -1\n2 3 1 0 0 1 1\n"
+        tmp = tempfile.mkdtemp(prefix="c02_")
+        try:
+            d1, d2 = os.path.join(tmp, "p"), os.path.join(tmp, "q")
+            os.mkdir(d1); os.mkdir(d2)
+            path = os.path.join(d1, "b.swc")
+            for fn, content in [(path, data), (os.path.join(d1, "a.swc"), other), (os.path.join(d2, "b.swc"), other), (os.path.join(d2, "c.swc"), other)]:
+                with open(fn, "wb") as f:
+                    f.write(content)
+            src = io.BytesIO(data) if case["source"] == "bytes" else path
+            # building a collection may already read a member, so it belongs to the read
+            def member(pop):
+                return [os.path.basename(x) for x in pop.trees.swcs].index("b.swc")
+
+            def both():
+                pops = Populations.from_swc([d1, d2], **kw)      # the files both directories have: b.swc
+                assert len(pops) == 1, len(pops)
+                return pops
+
+            read = {
+                "population": lambda: (lambda pop: pop[member(pop)])(Population.from_swc(d1, **kw)),
+                "population-iter": lambda: (lambda pop: list(pop)[member(pop)])(Population.from_swc(d1, **kw)),
+                "lazy-list": lambda: Population(LazyLoadingTrees([path], **kw))[0],
+                "populations": lambda: both()[0][0],
+                "populations-chain": lambda: both().to_population()[0],
+                "tree": lambda: Tree.from_swc(src, **kw),
+                "read_swc": lambda: read_swc(src, **kw),
+            }[entry]
+            with warnings.catch_warnings(record=True) as w:
+                warnings.simplefilter("always")
+                try:
+                    got = read()
+                except Exception as e:  # noqa: BLE001 - the oracle decides
+                    return {"raised": type(e).__name__, "msg": str(e)[:200], "via": entry}
+            ws_ = [str(x.message)[:60] for x in w]
+            if entry == "read_swc":
+                df, comments = got
+                return {"df": {c: df[c].tolist() for c in df.columns}, "comments": list(comments), "warnings": ws_, "via": "read_swc"}
+            return {"df": {c: np.asarray(got.get_ndata(c)).tolist() for c in ["id", "type", "x", "y", "z", "r", "pid"]},
+                    "comments": list(got.comments), "warnings": ws_, "via": entry}
+        finally:
+            shutil.rmtree(tmp, ignore_errors=True)
+
     def oracle(self, case, res):
         rows = case["rows"]
         mode = case["mode"]
+        if mode == "entry":
+            if "exc" in res:
+                return [("entry-harness-error", f"the harness failed before/after the read via {case['entry']}: {res['exc']}: {res.get('msg')}")]
+            if case.get("bad"):
+                if "raised" in res:
+                    return []
+                what = (f"bytes that are not {case.get('encoding', 'utf-8 (the default encoding)')} ({case['bad_kind']}: {case['bad_hex']} at offset {case['bad_off']}, {case['bad_place']})"
+                        if case["bad"] == "bytes" else f"malformed line ({case['bad']}) at the {case.get('bad_pos')} position")
+                return [(f"malformed-accepted/{'decode' if case['bad'] == 'bytes' else 'row'}",
+                         f"{what}: reading returned a table with {len(res['df']['id'])} rows (file has {len(rows)} valid rows), comments {res['comments']!r}, "
+                         f"instead of raising; via {res['via']}; warnings {res['warnings']}")]
+            if "raised" in res:
+                return [("valid-text-rejected", f"well-formed text rejected via {case['entry']} with {res['raised']}: {res.get('msg')}; text={case['text'][:200]!r}")]
         bad = mode == "bytes-bad" or (mode in ("malformed", "population") and case.get("bad"))
         if bad:
             if "exc" in res:
@@ -316,7 +546,7 @@ class Read(Suite):
                    "pid": -1 if r["pid"] == -1 else r["pid"] - shift}
             for c, v in exp.items():
                 g = df[c][k]
-                if c in ("id", "type", "pid") or res["via"] != "population":
+                if c in ("id", "type", "pid") or res["via"] == "read_swc":
                     same = g == v
                 else:
                     # a tree stores float32: compare with the value as float32 holds it (beyond 3.4e38 that is inf, below 1e-45 it is 0)
@@ -329,7 +559,7 @@ class Read(Suite):
             for j, v in enumerate(r["extra"]):
                 if df[f"e{j}"][k] != v:
                     out.append(("extra-col", f"row {k} extra column {j}: read {df[f'e{j}'][k]}, file says {v}")); return out
-        if res["via"] == "read_swc" and res["comments"] != case["comments"]:
+        if (res["via"] == "read_swc" or mode == "entry") and res["comments"] != case["comments"]:
             out.append(("comments", f"comments read {res['comments']!r}, file has {case['comments']!r}"))
         return out
 
@@ -337,7 +567,7 @@ class Read(Suite):
         return len(case["rows"]) >= 2
 
     def klass(self, case, res):
-        return case["class"] + ("/raised" if "exc" in res else "")
+        return case["class"] + ("/raised" if "exc" in res or "raised" in res else "")
 
 
 ALPHABET = " \t0123456789.+-eE#,x\n\r"
